@@ -138,6 +138,9 @@ func specPlain4(p *packets.FrameParser) bool {
 //@ ensures[C10.entry.closed]  forallint(h, !old(selb(isOpen, h)) ==> !selb(isOpen, h))
 //@ ensures[C10.entry.others]  forallint(h, old(selb(isOpen, h)) ==> selb(isOpen, h) && sel(closeN, h) == old(sel(closeN, h)))
 //@ ensures[C20.syn.nodial]    tcpDialed == old(tcpDialed)
+// what the run reports is what the engine and ToHops produced, under the endpoints the driver put on the wire
+//@ ensures[C03+C04+C05.entry.chain] ret1 == nil ==> sameslice(ret0.Hops, lastres(ToHops, 0)) && sameslice(lastarg(ToHops, probes), lastres(TracerouteSerial, 0)) && lastres(ToHops, 1) == nil && lastres(TracerouteSerial, 1) == nil
+//@ ensures[C06.entry.endpoints]     ret1 == nil ==> sameslice(ret0.Source.IPAddress, t.srcIP) && ret0.Source.Port == t.srcPort && sameslice(ret0.Destination.IPAddress, t.Target) && ret0.Destination.Port == t.DestPort
 //@ before TracerouteSerial assert[C10.tcp.open] selb(isOpen, ref(driver.source)) && selb(isOpen, ref(driver.sink))
 // C11: the listener that reserves the local port stays open for as long as probes are in flight, so no other run (or
 // process) can be handed the same source port, which is what tells concurrent TCP runs to one target apart
